@@ -54,9 +54,11 @@ class ByteArray(bytes):
 
     The content is always valid, as values cannot be modified directly (see
     below) and trying to create from invalid data will raise an exception. So
-    the validation method is only a placeholder which always does nothing.
+    the validation method only checks that the array is not empty (an empty
+    byte array cannot be represented in an H tag).
     """
-    pass
+    if len(self) == 0:
+      raise gfapy.ValueError("Byte array is empty")
 
   def _default_gfa_tag_datatype(self):
     """GFA tag datatype to use by default"""
